@@ -75,20 +75,14 @@ impl Block {
     ///
     /// `new_line_positions` is used for locating a starting position of a line in the source code.
     fn start_tag_intersects_with_any(&self, line_changes: &[LineChange]) -> bool {
-        line_changes
-            .binary_search_by(|line_change: &LineChange| {
-                if Self::intersects_with_line_change_inclusive(
-                    &self.start_tag_position_range,
-                    line_change,
-                ) {
-                    Ordering::Equal
-                } else if line_change.line < self.start_tag_position_range.start().line {
-                    Ordering::Less
-                } else {
-                    Ordering::Greater
-                }
-            })
-            .is_ok()
+        // A linear scan for the same reason as in `content_intersects_with_any`: a change on the
+        // tag's first line that lies left of the `<` does not intersect, yet a later change may.
+        line_changes.iter().any(|line_change: &LineChange| {
+            Self::intersects_with_line_change_inclusive(
+                &self.start_tag_position_range,
+                line_change,
+            )
+        })
     }
 
     /// Whether the `position_range` intersects with the given `line_change`.
